@@ -527,3 +527,8 @@ def run(prog: Program, res: Result) -> None:  # noqa: PLR0912, PLR0915
     from checks.shared import check_cache_hit_environment
 
     check_cache_hit_environment(prog, res, "C16.R10")
+
+    res.rule("C16.R11", "a variable that exists in the data is never reported undefined: the environment's globals are merged into the globals of every template the Environment hands out - from_string, get_template and get_template_async pass self.make_globals(globals) - so a cache hit that rebinds a template's global_data cannot wipe them (shared with C10.R2)")
+    from checks.shared import check_globals_merged
+
+    check_globals_merged(prog, res, "C16.R11")
